@@ -171,7 +171,7 @@ def generic_cases(ctx, rng, n):
 
 
 def _run_property(ctx):
-    ctx.cov['rule'] = ('base notebooks with 2-6 cells, every cell owned by local, remote or nobody, per-cell action on the owning side (edit source / outputs / '
+    ctx.cov['rule'] = ('base notebooks with 2-36 cells (long notebooks with few touched cells included), every cell owned by local, remote or nobody, per-cell action on the owning side (edit source / outputs / '
                        'metadata / re-run, delete, leave), insertions only in gaps not adjacent to a cell the other side touched; expected result built without '
                        'any diff; plus generic dicts (different keys) and lists (separate positions); non-trivial = every case; distinct by (partition, actions, strategy)')
     vlib.audit(ctx, 'NbdimeProofs', THEOREMS)
